@@ -54,6 +54,12 @@ func (c *CV) String() string {
 			ps = append(ps, e.String())
 		}
 		return "[" + strings.Join(ps, " ") + "]"
+	case "map":
+		var ps []string
+		for _, e := range c.L {
+			ps = append(ps, e.F["k"].String()+":"+e.F["v"].String())
+		}
+		return "map[" + strings.Join(ps, " ") + "]"
 	}
 	return "<" + c.K + ">"
 }
@@ -261,6 +267,23 @@ func genValue(t types.Type, r *rand.Rand, depth int) *CV {
 		}
 		c.N = int(tt.Len())
 		return c
+	case *types.Map:
+		// entries with pairwise different keys (K = "map", L = list of {k, v})
+		c := &CV{K: "map"}
+		n := r.Intn(4)
+		for i := 0; i < n; i++ {
+			k := genValue(tt.Key(), r, depth+1)
+			dup := false
+			for _, e := range c.L {
+				if e.F["k"].equal(k) {
+					dup = true
+				}
+			}
+			if !dup {
+				c.L = append(c.L, &CV{K: "struct", F: map[string]*CV{"k": k, "v": genValue(tt.Elem(), r, depth+1)}})
+			}
+		}
+		return c
 	}
 	panic(genError{"unsupported input type " + ts})
 }
@@ -334,6 +357,12 @@ func (lc *litCtx) goLit(c *CV, t types.Type) string {
 		return lc.sliceLit(c, t, tt.Elem())
 	case *types.Array:
 		return lc.sliceLit(c, t, tt.Elem())
+	case *types.Map:
+		var es []string
+		for _, e := range c.L {
+			es = append(es, lc.goLit(e.F["k"], tt.Key())+": "+lc.goLit(e.F["v"], tt.Elem()))
+		}
+		return fmt.Sprintf("%s{%s}", lc.typeStr(t), strings.Join(es, ", "))
 	}
 	panic(genError{"cannot print literal of " + ts})
 }
